@@ -147,10 +147,14 @@ def gen(tier, seed):
             filters.append([nd.loc, slot, mask])
             slot += 1
         pfs = []
+        pfpaths = {}
         for nd, depth in nodes:
             for i2, d in enumerate(nd.decls):
                 if d.typ in ('int', 'float', 'bool', 'str') and rng.random() < 0.2:
                     pfs.append('%s:%d' % (nd.loc, i2))
+                    if rng.random() < 0.5:
+                        # install it by path (cfg_set_print_func) instead of on the option itself
+                        pfpaths[pfs[-1]] = path_of(root, pfs[-1])
         # (locator, depth of the instance, indentation asked of cfg_print_indent: its own depth, or far deeper)
         bodies = [[nd.loc, depth, depth if rng.random() < 0.6 else depth + rng.choice([1, 7, 29, 31, 32, 33, 60, 200])] for nd, depth in rng.sample(nodes, min(4, len(nodes)))]
         # function options print nothing unless they carry a print callback; then one line at the section's depth
@@ -164,7 +168,26 @@ def gen(tier, seed):
         optprints = [[ol, rng.choice([None, 0, 1, 5, 33, 70])] for ol in rng.sample(cands, min(3, len(cands)))]
         # a third of the cases: the context already has a filter while the text is parsed (sections are created under it); it is removed or replaced afterwards
         pre = rng.getrandbits(32) | 1 if rng.random() < 0.35 else None
-        yield {'decls': [d.to_json() for d in decls], 'text': text, 'filters': filters, 'pfs': pfs, 'bodies': bodies, 'fpfs': fpfs, 'pre': pre, 'optprints': optprints}
+        yield {'decls': [d.to_json() for d in decls], 'text': text, 'filters': filters, 'pfs': pfs, 'bodies': bodies, 'fpfs': fpfs, 'pre': pre, 'optprints': optprints, 'pfpaths': pfpaths}
+
+
+def path_of(root, oloc):
+    """by-path name of the option at locator oloc ('0:2.1:0'), or None when a step cannot be written (title with path syntax in it)"""
+    parts = oloc.split(':')[1:]
+    node, steps = root, []
+    for p_ in parts[:-1]:
+        i, j = (int(x) for x in p_.split('.'))
+        d = node.decls[i]
+        child = node.kids[d.name][j]
+        if not d.is_multi:
+            steps.append(d.name)
+        elif d.flags & F_TITLE:
+            steps.append(d.name + "='" + child.title.replace('\\', '\\\\').replace("'", "\\'") + "'")
+        else:
+            steps.append('%s=%d' % (d.name, j) if j else d.name)      # an unqualified step means the first instance
+        node = child
+    steps.append(node.decls[int(parts[-1])].name)
+    return '|'.join(steps)
 
 
 def eff_of(loc, filters):
@@ -210,7 +233,10 @@ def script(spec):
         else:
             lines.append('set_filter %s -1 0' % loc)
     for ol in spec['pfs']:
-        lines.append('opt_set_print_func %s 1' % ol)
+        if spec.get('pfpaths', {}).get(ol):
+            lines.append('set_print_func 0 %s 1' % hx(spec['pfpaths'][ol]))
+        else:
+            lines.append('opt_set_print_func %s 1' % ol)
     lines.append('note callbacks')
     lines.append('print 0')
     for f in spec.get('fpfs', []):
